@@ -115,6 +115,15 @@ def _make_relation(rng, kind, base, facts):
             elif h["mode"] == "input_fault":
                 h["fault_pick"] = rng.randint(0, 10**6)
             runs.append(h)
+        if rng.random() < 0.25:
+            # "stale partial refresh": a full run of a sibling input, then a partial run of the input under test (one asset only, or killed
+            # early), then the run under test - the sequence in which per-asset caches and incrementally updated files go wrong
+            names = sorted(s["name"] for s in base["world"]["sheets"])
+            full = {"mode": "clean", "world": sibling_world(rng, base["world"]), "opts": dict(base["opts"], asset=None)}
+            part = {"mode": "clean", "world": "same", "opts": dict(base["opts"], asset=names[0])}
+            if rng.random() < 0.4:
+                part = {"mode": "crash", "world": "same", "opts": dict(base["opts"]), "crash_at": rng.randint(1, 25)}
+            runs = [full, part]
         rel["runs"] = runs
         rel["residue"] = gen.gen_prestate(rng, base["opts"]) if rng.random() < 0.6 else []
         rel["host"] = gen.gen_host(rng, {"clock": True, "env": False, "hash": rng.random() < 0.5}) if rng.random() < 0.5 else dict(gen.BASE_HOST)
